@@ -16,7 +16,9 @@
    ways the call raises) -- with a number of constraints but none selected the dual variable stays zero, the stopping rule
    never fires, each iteration contracts the distance to the least-squares solution by rho / (mu + rho): end-to-end bound and
    limit; a state reproduced by the non_negative loop body is a KKT point; the documented stand-alone call raises (refuted /
-   partial pair C13_admm_returns_refuted, C13_admm_returns_partial). *)
+   partial pair C13_admm_returns_refuted, C13_admm_returns_partial); a state reproduced by the l1_reg body meets the lasso
+   conditions; fista's momentum recurrence is computed in the model (Model/NnlsMomentum.v) and is the sequence the rate theorems use;
+   hals_nnls with nonzero_rows=True and epsilon > 0 is the call with nonzero_rows=False. *)
 From Coq Require Import List Arith Reals Lra QArith Qabs.
 From TLV Require Import Base.Ops Base.PyList Base.Tensor Base.RSum Model.Nnls Model.NnlsEntry Proofs.NnlsProofs Proofs.NnlsProofsDescent Proofs.NnlsProofsNz Proofs.NnlsProofsAdmm Proofs.NnlsProofsFista Proofs.NnlsProofsFista2 Proofs.NnlsProofsAset Proofs.NnlsProofsAsetCert Proofs.NnlsProofsAsetFull Proofs.NnlsProofsExamples Proofs.NnlsProofsConv Proofs.NnlsProofsStep Proofs.NnlsProofsEntry Proofs.NnlsProofsGap Proofs.NnlsProofsTol0 Proofs.NnlsProofsAsetRnd Proofs.NnlsProofsUnique Proofs.NnlsProofsLimit Proofs.NnlsProofsFistaRate Proofs.NnlsProofsEps Proofs.NnlsProofsAsetTerm Model.NnlsAdmm Proofs.NnlsProofsAdmmLoop Proofs.NnlsProofsAdmmWitness Model.NnlsMomentum Proofs.NnlsProofsMomentum Proofs.NnlsProofsNzEps.
 From TLV Require Model.Prox.
